@@ -200,6 +200,14 @@ let rename_case alpha scopes origs =
   let fin = RenameModel.rename_program st ct !js_keywords orig prog in
   Stdlib.String.concat "," (Stdlib.List.init (Array.length on) (fun i -> hexe (fin (nat_of_int i))))
 
+
+(* ---- Svg path separators ---- *)
+let pathsep_case desc =
+  let items = if desc = "" then [] else Stdlib.List.map (fun d ->
+      let rest = Stdlib.String.sub d 1 (sl d - 1) in
+      if d.[0] = 'F' then PathSep.IFlag (rest = "1") else PathSep.INum (hexd rest)) (split ',' desc) in
+  hexe (PathSep.emit PathSep.st_cmd items)
+
 let register (reg : string -> (string list -> string) -> unit) =
   reg "json_events" (function [k; evs] -> hexe (JsonModel.json_minify_events (k = "1") (parse_events evs))
                             | [k] -> hexe (JsonModel.json_minify_events (k = "1") []) | _ -> "BADARGS");
@@ -220,5 +228,6 @@ let register (reg : string -> (string list -> string) -> unit) =
   reg "rename_keywords" (function [k] -> js_keywords := Stdlib.List.map hexd (split ',' k); Printf.sprintf "ok %d" (Stdlib.List.length !js_keywords) | _ -> "BADARGS");
   reg "get_name" (function [a; i] -> let (st, ct) = alphabets a in hexe (RenameModel.get_name st ct (z_of_int (int_of_string i))) | _ -> "BADARGS");
   reg "rename" (function [a; sc; o] -> rename_case a sc o | [a; sc] -> rename_case a sc "" | _ -> "BADARGS");
+  reg "pathsep" (function [d] -> pathsep_case d | [] -> pathsep_case "" | _ -> "BADARGS");
   reg "tokbuf" (function [t; o] -> tokbuf t o | _ -> "BADARGS");
   reg "json_tree" (function [t] -> show_events (JsonSpec.events_of JsonModel.SValue (parse_tree t)) | _ -> "BADARGS")
